@@ -51,7 +51,7 @@ CLAIMS["C02"] = dict(
     note="Trusted: Lean kernel; scipy.integrate.solve_ivp as reference; the harness fake integrator, float evaluator and generators; hand-written catalogue equations. "
          "Assumed and validated per run: scipy's ode/odeint approximate the flow (well-conditioned instances only; for the odeint entry points, which run at scipy's default tolerance 1.49e-8, "
          "the acceptance is max(1e-6, 20 x the error of scipy's own odeint on the same instance)); set_initial_value copies; `aliased` is measured on the real scipy (lsoda aliases in scipy 1.18). "
-         "solve_determ is covered for fixed (non-random) parameters only. Integration failure (IntegrationError) is outside the model: on grids with a zero-length or <= 4-ulp step the "
+         "solve_determ is covered for fixed (non-random) parameters only. Integration failure (IntegrationError) is outside the model: on grids with a zero-length or <= 32-ulp step the "
          "scipy.integrate.ode based entry points may refuse (tagged, not judged; what they return is judged), and where scipy's own odeint fails (first output within 4 ulps of t0) pygom.integrate "
          "passes on its uninitialised rows without looking at the success flag (observed, not judged).",
     technique="Lean 4 induction over the time grid with buffer cells (value | reference) + exact fake-integrator correspondence + independent-reference oracle")
